@@ -128,6 +128,14 @@ class C10(Check):
         r = w.call(init, s=s, mech=mech, key=key)
         if r["rv"] != 0:
             return r["rv"], None
+        # every other single-part call is made the way callers make it: a length query (NULL output) first, then the call with a buffer -
+        # the result must be that of the one call (the differential oracle downstream compares it with the reference)
+        self._single_calls = getattr(self, "_single_calls", 0) + 1
+        if self._single_calls % 2 == 0:
+            q = w.call(one, s=s, data=data.hex())
+            if q["rv"] != 0:
+                return q["rv"], None
+            self.count("single_part_query_then_call")
         r = w.call(one, s=s, data=data.hex(), out=outlen or len(data) + 128)
         if r["rv"] != 0:
             return r["rv"], None
@@ -621,8 +629,16 @@ class C10(Check):
     def derive_value(self, mech, base, length=None):
         tpl = T(("CKA_CLASS", "CKO_SECRET_KEY"), ("CKA_KEY_TYPE", "CKK_GENERIC_SECRET"), ("CKA_TOKEN", False), ("CKA_PRIVATE", False),
                 ("CKA_SENSITIVE", False), ("CKA_EXTRACTABLE", True))
+        # the requested length: the whole secret, or fewer bytes (PKCS#11: "the truncation removes bytes from the leading end of the secret value" -
+        # stated for CKM_DH_PKCS_DERIVE and CKM_ECDH1_DERIVE alike, so the key is the LAST n bytes of the secret)
+        self._cut = None
         if length:
-            tpl += T(("CKA_VALUE_LEN", length))
+            sel = getattr(self, "_cutsel", 0) % 4
+            n = length if sel == 0 else max(1, min(length, (16, 20, length - 1)[sel - 1]))
+            if n != length:
+                self._cut = n
+                self.count("derive_truncated")
+            tpl += T(("CKA_VALUE_LEN", n))
         r = self.w.C_DeriveKey(s=self.s, mech=mech, key=base, tpl=tpl)
         if r["rv"] != 0:
             return r["rv"], None
@@ -631,6 +647,7 @@ class C10(Check):
 
     def f_derive(self, p, msg):
         kp = keypool()
+        self._cutsel = p["bit"] // 3
         which = ["dh", "ecdh", "xdh"][p["alg"] % 3]
         self.nt = True
         if which == "dh":
@@ -693,6 +710,8 @@ class C10(Check):
             rv, val = self.derive_value({"m": K.CKM_ECDH1_DERIVE, "p": {"ecdh": {"kdf": K.CKD_NULL, "pub": peer.hex()}}}, base, len(want))
         if rv != 0:
             raise self.V("C_DeriveKey failed: %s" % K.rvname(rv))
+        if getattr(self, "_cut", None):
+            want = want[-self._cut:]
         if val != want:
             raise self.V("derived secret differs from the reference: token %s.. (%d bytes) reference %s.. (%d bytes)" % (
                 (val or b"").hex()[:40], len(val or b""), want.hex()[:40], len(want)))
